@@ -92,3 +92,17 @@ Qed.
 (* expected_format = qcow2 on 512 zero bytes: the qcow2 inspector is complete without matching after the first chunk *)
 Example ex_abort : first_abort istate eat complete cmatch (init F_qcow2) [zeros 512; zeros 10] = Some (0%nat, AbMismatch).
 Proof. vm_compute. reflexivity. Qed.
+
+(* a run in which an inspector RAISES and is frozen by the wrapper: KDMV with version 9 ("Unsupported format
+   version": ImageFormatError from VMDKInspector.post_process); the read goes through (no expected format), the vmdk
+   slot is in the errored set, and format after close is still vmdk (formats does not drop errored inspectors) *)
+Definition ex_frozen : list bytes := [VMDK_MAGIC ++ [9; 0; 0; 0] ++ zeros 504; zeros 100].
+Example ex_frozen_run :
+  exists w, read_and_closed None [] ex_frozen w /\ cw_format_name w = Ok (Some (fmt_name F_vmdk)) /\
+            s_err (slot_closed ex_frozen F_vmdk) = true /\ In (slot_closed ex_frozen F_vmdk) (w_slots w).
+Proof.
+  destruct (no_expectation_reads_through [] ex_frozen) as (w1 & H1).
+  assert (Hrc : read_and_closed None [] ex_frozen (cw_close w1)) by (destruct H1 as (tr & un & H1); exists w1, tr, un; auto).
+  exists (cw_close w1). split; [exact Hrc|]. rewrite (read_and_closed_is _ _ _ _ Hrc).
+  split; [vm_compute; reflexivity|]. split; [vm_compute; reflexivity|]. apply closed_slot_in. reflexivity.
+Qed.
